@@ -38,6 +38,11 @@ def evStr : Ev → String
   | .closedTruncated => "E:truncated"
   | .eof => "E:eof"
 
+def sevStr : SEv → String
+  | .ev e => evStr e
+  | .closedPayloadTimeout => "E:paytimeout"
+  | .waiting => "E:waiting"
+
 structure St where
   cap : Nat := 64
   maxPayload : Nat := 32
@@ -56,6 +61,15 @@ def handle (st : St) (line : String) : St × Option String :=
       let evs := frames st.cap st.maxPayload hdrSimple (total + 2) init cs
       let sp := spec st.cap st.maxPayload hdrSimple (total + 2) cs.flatten
       (st, some ("obs " ++ " ".intercalate (evs.map evStr) ++ (if evs == sp then "" else " SPEC-DIFFERS " ++ " ".intercalate (sp.map evStr))))
+  | "stall" :: toks =>
+    let cs : Option (List (List Byte)) := (toks.filter (· != "-")).mapM Driver.Srv.xBytes
+    match cs with
+    | none => (st, some "obs BAD-CHUNKS")
+    | some cs =>
+      let total := (cs.map List.length).sum
+      let evs := stallView (frames st.cap st.maxPayload hdrSimple (total + 2) init cs)
+      let sp := stallView (spec st.cap st.maxPayload hdrSimple (total + 2) cs.flatten)
+      (st, some ("obs " ++ " ".intercalate (evs.map sevStr) ++ (if evs == sp then "" else " SPEC-DIFFERS " ++ " ".intercalate (sp.map sevStr))))
   | _ => (st, none)
 
 end Driver.Rd
